@@ -4,10 +4,10 @@
 //! StackMapTable without rows), flags-only attributes, the same attribute at every level, and an
 //! annotations attribute occurring twice in one item.  Built by editing the raw structure of a base
 //! class (`fbh::classfile::raw`: parse, edit, byte-exact write).
-use fbh::classfile::raw::{self, AttrInfo, Attribute, Const, LineNumber, LocalVar, RawClass};
+use fbh::classfile::raw::{self, Annotation, AttrInfo, Attribute, Const, ElementValue, LineNumber, LocalVar, RawClass};
 use fbh::prng::Rng;
 
-pub const KINDS: [&str; 9] = ["empty-annotations", "empty-lists", "empty-debug-tables", "flags-only", "signature-everywhere", "dup-annotations", "mixed-debug-tables", "reordered-debug-tables", "cldc-stackmap"];
+pub const KINDS: [&str; 11] = ["empty-annotations", "empty-lists", "empty-debug-tables", "flags-only", "signature-everywhere", "dup-annotations", "mixed-debug-tables", "reordered-debug-tables", "cldc-stackmap", "annotation-values", "too-deep-annotation"];
 
 fn utf8(c: &mut RawClass, s: &str) -> u16 {
 	for (i, e) in c.pool.iter().enumerate() {
@@ -178,6 +178,92 @@ pub fn edit(rng: &mut Rng, c: &mut RawClass, kind: &str) -> bool {
 					}
 				}
 			}
+		}
+		"annotation-values" => {
+			// Annotations built from scratch with the values compilers rarely write: byte / char / short / boolean constants whose
+			// pool entry is a WIDE int (the reader narrows: `integer as i8`, `!= 0`), NaNs with payloads, extreme longs, empty and
+			// non-ASCII strings, empty arrays, annotations without pairs, the same pair name twice, arrays and annotations nested
+			// 1..6 deep and once exactly as deep as the reader admits (64; one level more and the full read refuses the class)
+			let ints: Vec<u16> = [0x1_2345, -1, 256, 0x8000, i32::MIN, 255, 0, 65536, 0x7f, -129].iter().map(|v| { c.pool.push(Some(Const::Integer(*v))); (c.pool.len() - 1) as u16 }).collect();
+			let floats: Vec<u16> = [0x7fc0_0001u32, 0xffc0_0000, 0x8000_0000, 0x7f80_0000].iter().map(|v| { c.pool.push(Some(Const::Float(*v))); (c.pool.len() - 1) as u16 }).collect();
+			let mut wide = vec![];
+			for v in [i64::MIN, -1, 0x1_0000_0000] { c.pool.push(Some(Const::Long(v))); wide.push((b'J', (c.pool.len() - 1) as u16)); c.pool.push(None); }
+			for v in [0x7ff8_0000_0000_0001u64, 0xfff0_0000_0000_0000, 0x8000_0000_0000_0000] { c.pool.push(Some(Const::Double(v))); wide.push((b'D', (c.pool.len() - 1) as u16)); c.pool.push(None); }
+			let strs: Vec<u16> = ["", "x", "\u{e9}\u{4e2d}", "a\tb c"].iter().map(|t| utf8(c, t)).collect();
+			let (ty, ety, cty) = (utf8(c, "Lverif/Ann;"), utf8(c, "Lverif/En;"), [utf8(c, "V"), utf8(c, "I"), utf8(c, "[[Lverif/Ann;")]);
+			let names: Vec<u16> = ["value", "a", "b", "\u{e9}"].iter().map(|t| utf8(c, t)).collect();
+			fn leaf(rng: &mut Rng, ints: &[u16], floats: &[u16], wide: &[(u8, u16)], strs: &[u16], ety: u16, cty: &[u16]) -> ElementValue {
+				match rng.below(8) {
+					0 | 1 | 2 => ElementValue::Const { tag: *rng.pick(&[b'B', b'C', b'S', b'Z', b'I']), index: *rng.pick(ints) },
+					3 => ElementValue::Const { tag: b'F', index: *rng.pick(floats) },
+					4 => { let (tag, index) = *rng.pick(wide); ElementValue::Const { tag, index } }
+					5 => ElementValue::Const { tag: b's', index: *rng.pick(strs) },
+					6 => ElementValue::Enum { type_name_index: ety, const_name_index: *rng.pick(strs) },
+					_ => ElementValue::Class(*rng.pick(cty)),
+				}
+			}
+			#[allow(clippy::too_many_arguments)]
+			fn tree(rng: &mut Rng, depth: usize, ty: u16, names: &[u16], ints: &[u16], floats: &[u16], wide: &[(u8, u16)], strs: &[u16], ety: u16, cty: &[u16]) -> ElementValue {
+				if depth == 0 { return leaf(rng, ints, floats, wide, strs, ety, cty); }
+				let n = rng.below(3);
+				if rng.chance(1, 2) {
+					ElementValue::Array((0..n).map(|i| if i == 0 { tree(rng, depth - 1, ty, names, ints, floats, wide, strs, ety, cty) } else { leaf(rng, ints, floats, wide, strs, ety, cty) }).collect())
+				} else {
+					ElementValue::Annotation(Annotation { type_index: ty, pairs: (0..n).map(|i| (*rng.pick(names), if i == 0 { tree(rng, depth - 1, ty, names, ints, floats, wide, strs, ety, cty) } else { leaf(rng, ints, floats, wide, strs, ety, cty) })).collect() })
+				}
+			}
+			// nested exactly d deep (every level holds one element): the deepest value the reader admits has d = 64
+			fn chain(rng: &mut Rng, d: usize, ty: u16, name: u16, inner: ElementValue) -> ElementValue {
+				let mut v = inner;
+				for _ in 0..d { v = if rng.chance(1, 2) { ElementValue::Array(vec![v]) } else { ElementValue::Annotation(Annotation { type_index: ty, pairs: vec![(name, v)] }) }; }
+				v
+			}
+			let idx: Vec<u16> = ANN[..2].iter().map(|n| utf8(c, n)).collect();
+			let dflt = utf8(c, "AnnotationDefault");
+			let mut deep_done = false;
+			for_each_list(c, &mut |level, attrs| {
+				if level == 3 { return; }
+				for i in 0..2 {
+					if has(attrs, ANN[i]) || !rng.chance(1, 2) { continue; }
+					let n = rng.range(1, 3);
+					let mut anns: Vec<Annotation> = vec![];
+					for _ in 0..n {
+						let np = rng.below(4);
+						let mut pairs = vec![];
+						for _ in 0..np { let d = rng.below(4); let nm = *rng.pick(&names); pairs.push((nm, tree(rng, d, ty, &names, &ints, &floats, &wide, &strs, ety, &cty))); }
+						anns.push(Annotation { type_index: ty, pairs });
+					}
+					if !deep_done {
+						deep_done = true;
+						let leafv = leaf(rng, &ints, &floats, &wide, &strs, ety, &cty);
+						anns.push(Annotation { type_index: ty, pairs: vec![(names[0], chain(rng, 64, ty, names[1], leafv))] });
+					}
+					let info = if i == 0 { AttrInfo::RuntimeVisibleAnnotations(anns) } else { AttrInfo::RuntimeInvisibleAnnotations(anns) };
+					put(rng, attrs, attr(idx[i], ANN[i], info));
+					changed = true;
+				}
+				if level == 2 && !has(attrs, "AnnotationDefault") && rng.chance(1, 2) {
+					let d = rng.below(4);
+					let v = if rng.chance(1, 6) { let leafv = leaf(rng, &ints, &floats, &wide, &strs, ety, &cty); chain(rng, 64, ty, names[1], leafv) } else { tree(rng, d, ty, &names, &ints, &floats, &wide, &strs, ety, &cty) };
+					put(rng, attrs, attr(dflt, "AnnotationDefault", AttrInfo::AnnotationDefault(v)));
+					changed = true;
+				}
+			});
+		}
+		"too-deep-annotation" => {
+			// one level more than the reader admits (65 arrays around an int): the full visitor refuses the class, a visitor that is
+			// not interested in the attribute skips it by its length
+			let (ty, nm, rva) = (utf8(c, "Lverif/Ann;"), utf8(c, "value"), utf8(c, "RuntimeVisibleAnnotations"));
+			c.pool.push(Some(Const::Integer(7)));
+			let mut v = ElementValue::Const { tag: b'I', index: (c.pool.len() - 1) as u16 };
+			// the innermost level (the one beyond the limit) alternately an array and an annotation: both readers have their own test
+			let inner_is_array = rng.chance(1, 2);
+			for k in 0..65 { v = if (k == 0 && inner_is_array) || (k > 0 && rng.chance(1, 2)) { ElementValue::Array(vec![v]) } else { ElementValue::Annotation(Annotation { type_index: ty, pairs: vec![(nm, v)] }) }; }
+			let a = attr(rva, "RuntimeVisibleAnnotations", AttrInfo::RuntimeVisibleAnnotations(vec![Annotation { type_index: ty, pairs: vec![(nm, v)] }]));
+			let at = rng.below(3);
+			if at == 0 || c.methods.is_empty() { put(rng, &mut c.attributes, a); } else if at == 1 { let k = rng.below(c.methods.len()); put(rng, &mut c.methods[k].attributes, a); }
+			else if !c.fields.is_empty() { let k = rng.below(c.fields.len()); put(rng, &mut c.fields[k].attributes, a); } else { put(rng, &mut c.attributes, a); }
+			changed = true;
 		}
 		"flags-only" => {
 			let (d, s) = (utf8(c, "Deprecated"), utf8(c, "Synthetic"));
